@@ -4,6 +4,8 @@ use crate::common::*;
 use crate::Ctx;
 use serde_json::{json, Value};
 
+include!("lift_templates.rs");
+
 const FILE: &str = "rspirv/lift/autogen_context.rs";
 
 /// splits `a : X , b : Y` at top-level commas
@@ -33,25 +35,36 @@ fn split_top(s: &str) -> Vec<String> {
 
 fn field(desc: &str) -> Option<Value> {
     let (name, init) = desc.split_once(" : ")?;
-    // kind matched: first `dr :: Operand :: K (`
-    let kind = init.split("dr :: Operand :: ").nth(1).map(|r| r.split(' ').next().unwrap_or("").to_string());
-    let mode = if init.contains("self . types . lookup_token") {
-        "type_token"
-    } else if init.contains("self . constants . lookup_token") {
-        "const_token"
-    } else if init.contains("self . lookup_jump") {
-        "jump"
-    } else {
-        "raw"
-    };
-    let arity = if init.contains("while let Some ( item )") || init.contains("let mut vec = Vec :: new ( )") {
-        if init.contains("( operands . next ( ) , operands . next ( ) )") { "pairs" } else { "many" }
-    } else if init.trim_end().ends_with(". ok_or ( OperandError :: Missing ) ?") {
-        "required"
-    } else {
-        "optional"
-    };
-    Some(json!({"name": name.trim(), "kind": kind, "mode": mode, "arity": arity}))
+    // template of the initialiser: operand variant names replaced by K1, K2 in order of first occurrence
+    let mut kinds: Vec<String> = vec![];
+    let mut tmpl = String::new();
+    let mut rest = init;
+    while let Some(pos) = rest.find("dr :: Operand :: ") {
+        tmpl.push_str(&rest[..pos]);
+        let after = &rest[pos + "dr :: Operand :: ".len()..];
+        let k = after.split(' ').next().unwrap_or("").to_string();
+        let idx = match kinds.iter().position(|x| *x == k) {
+            Some(i) => i,
+            None => {
+                kinds.push(k.clone());
+                kinds.len() - 1
+            }
+        };
+        tmpl.push_str(&format!("dr :: Operand :: K{}", idx + 1));
+        rest = &after[k.len()..];
+    }
+    tmpl.push_str(rest);
+    let tmpl = tmpl.trim().to_string();
+    // exact match against the known initialiser shapes; anything else is a translation failure
+    match TEMPLATES.iter().find(|t| t.0 == tmpl) {
+        Some((_, arity, mode, mode2)) => {
+            let kind = kinds.first().cloned().unwrap_or_default();
+            // second component of a pair: the second distinct variant, or the same one (Phi)
+            let kind2 = if *arity == "pairs" || *mode == "rest_ids" { kinds.get(1).cloned().unwrap_or(kind.clone()) } else { String::new() };
+            Some(json!({"name": name.trim(), "kind": kind, "kind2": kind2, "mode": mode, "mode2": mode2, "arity": arity}))
+        }
+        None => Some(json!({"name": name.trim(), "unrecognised": tmpl.chars().take(200).collect::<String>()})),
+    }
 }
 
 pub fn extract(cx: &mut Ctx) -> Value {
@@ -87,6 +100,7 @@ pub fn extract(cx: &mut Ctx) -> Value {
                                 let inner = match inner {
                                     Some(i) => i,
                                     None => {
+                                        cx.fail(format!("{}: {} arm {}: unrecognised body", FILE, fname, num));
                                         arms.push(json!({"opcode": num, "unrecognised": b.chars().take(80).collect::<String>()}));
                                         continue;
                                     }
@@ -100,6 +114,11 @@ pub fn extract(cx: &mut Ctx) -> Value {
                                     Some(fs) => split_top(&fs).iter().filter_map(|d| field(d)).collect(),
                                     None => vec![],
                                 };
+                                for x in &fl {
+                                    if let Some(u) = x.get("unrecognised") {
+                                        cx.fail(format!("{}: {} arm {} field {}: unrecognised initialiser `{}`", FILE, fname, num, x["name"], u));
+                                    }
+                                }
                                 arms.push(json!({"opcode": num, "variant": variant, "fields": fl}));
                             }
                         }
